@@ -56,22 +56,30 @@ def random_scenario(rng):
     return {'clients': clients, 'jobs': jobs}
 
 
+# (scenario, pre-emption bound quick, bound thorough, cap thorough)
 FIXED_SCENARIOS = [
-    # two adds racing with a front insert; the first job raises
-    {'clients': [[('add', 1), ('add', 2)], [('insert', 3)]],
-     'jobs': {1: ('raise', 0), 2: ('fin', 0), 3: ('fin', 0)}},
-    # clear racing with the start of the next job
-    {'clients': [[('add', 1), ('add', 2)], [('clear', None)]],
-     'jobs': {1: ('fin', 0), 2: ('fin', 0)}},
     # stop_current racing with completion
-    {'clients': [[('add', 1)], [('stopcur', None)]], 'jobs': {1: ('fin', 0)}},
-    # completion racing with an add (the window after `_active_agent = None`)
-    {'clients': [[('add', 1)], [('add', 2)]], 'jobs': {1: ('raise', 0), 2: ('fin', 0)}},
-    # background job alongside the queue
-    {'clients': [[('spawn', 1), ('isrun', 1)], [('add', 2)]],
-     'jobs': {1: ('fin', 0), 2: ('fin', 0)}},
+    ({'clients': [[('add', 1)], [('stopcur', None)]], 'jobs': {1: ('fin', 0)}}, 2, 3, 60000),
+    # clear racing with the start of a job
+    ({'clients': [[('add', 1)], [('clear', None)]], 'jobs': {1: ('fin', 0)}}, 2, 3, 60000),
     # stop_job on a background job that waits to be stopped; has_jobs
-    {'clients': [[('spawn', 1), ('stopjob', 1)], [('has', None)]], 'jobs': {1: ('block', 0)}},
+    ({'clients': [[('spawn', 1), ('stopjob', 1)], [('has', None)]], 'jobs': {1: ('block', 0)}},
+     2, 3, 60000),
+    # is_running racing with a background job
+    ({'clients': [[('spawn', 1)], [('isrun', 1)]], 'jobs': {1: ('fin', 0)}}, 2, 3, 60000),
+    # completion racing with an add (the window after `_active_agent = None`); first job raises
+    ({'clients': [[('add', 1)], [('add', 2)]], 'jobs': {1: ('raise', 0), 2: ('fin', 0)}}, 1, 2, None),
+    # completion racing with a front insert
+    ({'clients': [[('add', 1)], [('insert', 2)]], 'jobs': {1: ('fin', 0), 2: ('fin', 0)}}, 1, 2, None),
+    # two adds racing with a front insert; the first job raises
+    ({'clients': [[('add', 1), ('add', 2)], [('insert', 3)]],
+     'jobs': {1: ('raise', 0), 2: ('fin', 0), 3: ('fin', 0)}}, 1, 2, 40000),
+    # clear racing with the start of the next job
+    ({'clients': [[('add', 1), ('add', 2)], [('clear', None)]],
+     'jobs': {1: ('fin', 0), 2: ('fin', 0)}}, 1, 2, 40000),
+    # background job alongside the queue
+    ({'clients': [[('spawn', 1), ('isrun', 1)], [('add', 2)]],
+     'jobs': {1: ('fin', 0), 2: ('fin', 0)}}, 1, 2, 40000),
 ]
 
 
@@ -480,25 +488,25 @@ def main():
     dist['random_schedules'] = n_done
 
     # ---- 2. every schedule with a bounded number of pre-emptions, fixed scenarios
-    bound = 3 if chk.thorough else 2
     n_sys = 0
     per_scn_counts = []
-    cap = None if chk.thorough else 6000
-    if 'C08_SYS_CAP' in os.environ:
-        cap = int(os.environ['C08_SYS_CAP'])
-    for scn in FIXED_SCENARIOS:
+    for scn, b_quick, b_thorough, cap_thorough in FIXED_SCENARIOS:
+        bound = b_thorough if chk.thorough else b_quick
+        cap = cap_thorough if chk.thorough else None
+        if 'C08_SYS_CAP' in os.environ:
+            cap = int(os.environ['C08_SYS_CAP'])
         count = [0]
 
         def run_one(chooser, scn=scn):
             run = run_case(jc_mod, scn, chooser)
             count[0] += 1
-            record(scn, run, count[0] % (20 if chk.thorough else 4) == 0)
+            record(scn, run, count[0] % (25 if chk.thorough else 5) == 0)
             return run.result
         n = sched.explore_bounded(run_one, bound, max_runs=cap)
-        per_scn_counts.append({'scenario': scenario_text(scn), 'schedules': n,
-                               'complete': cap is None or n < cap})
+        per_scn_counts.append({'scenario': scenario_text(scn), 'preemption_bound': bound,
+                               'schedules': n, 'complete': cap is None or n < cap})
         n_sys += n
-    dist['systematic'] = {'preemption_bound': bound, 'schedules': n_sys, 'per_scenario': per_scn_counts}
+    dist['systematic'] = {'schedules': n_sys, 'per_scenario': per_scn_counts}
 
     # ---- 3. correspondence with the Lean transition system, step by step
     answers = chk.driver.ask_many([('jc.replay', a) for a, _, _ in requests]) if requests else []
@@ -524,8 +532,8 @@ def main():
         'job_control.py) of one scenario (1-3 client threads, 1-4 jobs, add/insert/spawn/clear/'
         'stop_*/has_jobs/is_running calls, bodies that finish/raise/wait for a stop) run on the '
         'real JobControl; non-trivial = distinct (scenario, schedule) with at least one thread '
-        'switch; systematic part = every schedule with at most {} pre-emptions of {} fixed '
-        'scenarios'.format(bound, len(FIXED_SCENARIOS)))
+        'switch; systematic part = every schedule with at most 1-3 pre-emptions (see '
+        'distribution.systematic) of {} fixed scenarios'.format(len(FIXED_SCENARIOS)))
     chk.assumptions += [
         'thread switches are explored at source-line granularity (sys.settrace line events); '
         'switches inside a line (e.g. between the two reads of _active_agent in is_running) are not',
